@@ -186,6 +186,11 @@ def run_case(spec: dict, cfg: dict, root: str, counters: Counter | None = None) 
             else:
                 ext2 = None
             c["resaves_attempted"] += 1
+            if re.get("fresh", True):
+                # the usual load -> save: none of the external tensors has been memory-mapped yet (the
+                # model compared above has, which keeps old file contents alive through its mappings)
+                loaded = ir.load(model_path)
+                c["resaves_of_freshly_loaded_model"] += 1
             step2 = Step(1, re["backend"], re["opts"], ext2, dict(cfg, callback=None, invalid=None, fail=None))
             again = _do_step(step2, loaded, built.expected, model_path, base_abs, case_dir, c, viols, facts)
             if again is not None:
